@@ -323,7 +323,22 @@ fn tok_profile(profile: &str, seed: u64, n: usize, out: &mut dyn Write) {
                     }
                 }
             }
-            let line = tok::case_line(&id, &dname, dict, &dops, ign, maxg, &wops);
+            // a fifth of the cases set the tokenizer's options more than once: every setter overwrites, so only the final
+            // values may count (`ignore_space(true)` then `ignore_space(false)` must switch the option off again)
+            let mut hist = String::new();
+            if profile != "c10" && crng.chance(1, 5) {
+                hist.push('H');
+                for _ in 0..1 + crng.below(3) {
+                    if crng.chance(1, 2) {
+                        // ignore_space(true) only where it cannot fail, so that the history does not change the outcome class too often
+                        let b = if d.has_space { crng.below(2) } else { usize::from(crng.chance(1, 8)) };
+                        hist.push_str(&format!("i{b}"));
+                    } else {
+                        hist.push_str(&format!("m{}", crng.pick(&[0usize, 1, 2, 5, 24])));
+                    }
+                }
+            }
+            let line = tok::case_line_hist(&id, &dname, dict, &dops, &hist, ign, maxg, &wops);
             writeln!(out, "{line}").unwrap();
             made += 1;
         }
